@@ -167,10 +167,22 @@ MUTANTS2 = [
         "        return bool(tok.type == Token.NEWLINE and self._tokens and self._tokens[-1].type == Token.NEWLINE)\n")], expect="silent", checks=ALLP),
     M("benign-getnext-plain-one", "ALL",
       [(TKR, "self._index = Mark(self._index + Mark(1))", "self._index = Mark(self._index + 1)")], expect="silent", checks=ALLP),
-    M("benign-peek-line-number-local", "ALL",
-      [(TKR, "            if not self._path and tok.start[0] not in self._lines:\n                self._lines[tok.start[0]] = tok.line\n",
-        "            lnum = tok.start[0]\n            if not self._path and lnum not in self._lines:\n                self._lines[lnum] = tok.line\n")],
+    M("benign-peek-lines-local", "ALL",
+      [(TKR, "                for lnum, text in self.physical_lines(tok):\n                    self._lines.setdefault(lnum, text)\n",
+        "                pairs = self.physical_lines(tok)\n                for lnum, text in pairs:\n                    self._lines.setdefault(lnum, text)\n")],
       expect="silent", checks=ALLP),
+    M("benign-token-line-number-local", "ALL",
+      [(TKR, "        if len(lines) != tok.end[0] - tok.start[0] + 1:\n            lines = lines[:1]\n        return list(enumerate(lines, tok.start[0]))\n",
+        "        first = tok.start[0]\n        if len(lines) != tok.end[0] - first + 1:\n            lines = lines[:1]\n        return list(enumerate(lines, first))\n")],
+      expect="silent", checks=ALLP),
+    M("c12-cache-only-start-line", "C12",
+      [(TKR, "                for lnum, text in self.physical_lines(tok):\n                    self._lines.setdefault(lnum, text)\n",
+        "                self._lines.setdefault(tok.start[0], tok.line)\n")], mention="Y3-line-cache", checks=["C11"]),
+    M("c08-first-line-recorded-twice", "C08",
+      [(TKZ, "        if state.lnum > self.upto:\n", "        if state.lnum >= self.upto:\n")], mention="L2"),
+    M("c07-capture-only-start-line", "C07",
+      [(TKR, "            for lnum, text in self.physical_lines(tok):\n                if lnum not in lines:\n                    lines[lnum] = text if is_indented or lnum > tok.start[0] else text[tok.start[1] :]\n",
+        "            if tok.start[0] not in lines:\n                lines[tok.start[0]] = tok.line if is_indented else tok.line[tok.start[1] :]\n")], mention="M1"),
     M("benign-last-token-for-loop", "ALL",
       [(TKR, "        idx = self._index - 1\n        while idx >= 0:\n            tok = self._tokens[idx]\n            if tok.type not in {Token.ENDMARKER, Token.NEWLINE, Token.DEDENT, Token.INDENT}:\n                return tok\n            idx -= 1\n",
         "        for idx in range(self._index - 1, -1, -1):\n            tok = self._tokens[idx]\n            if tok.type not in {Token.ENDMARKER, Token.NEWLINE, Token.DEDENT, Token.INDENT}:\n                return tok\n")],
